@@ -59,7 +59,7 @@
 //    File: "src/lib_oxide.rs", line 441, in lib_oxide::verif_capi_lib_oxide::k_capi_mz_inflate
 //   
 //   VERIFICATION:- FAILED
-//   Verification Time: 44.461456s
+//   Verification Time: 50.75841s
 //   
 //   Manual Harness Summary:
 //   Verification failed for - lib_oxide::verif_capi_lib_oxide::k_capi_mz_inflate
